@@ -482,3 +482,26 @@ Proof.
     rewrite str_tree_text. eexists. apply parse_rfc3339_fmt; assumption.
     unfold time_item. rewrite parse_rfc3339_fmt by assumption. reflexivity.
 Qed.
+
+(* ------------------------------------------------------------------ *)
+(* F10-4 / RFC 8949 3.2.3: the chunks the encoder cuts a text string into are valid UTF-8.
+   Checked exhaustively for every text of at most 8 characters over {1,2,3,4}-byte samples
+   (87381 texts up to 32 bytes: every alignment of a multi-byte character against the cut);
+   with the pre-repair cutting (fixed byte offsets) this sweep is false. *)
+Definition text_chunks_ok (s : list N) : bool :=
+  forallb utf8_valid (chunks true (length s) (chunk_len (length s)) s).
+
+Lemma text_chunks_sweep : forallb text_chunks_ok (texts_upto 8) = true.
+Proof. vm_compute. reflexivity. Qed.
+
+Lemma forallb_map {A B} (g : A -> B) (p : B -> bool) : forall l, forallb p (map g l) = forallb (fun x => p (g x)) l.
+Proof. induction l; simpl; [reflexivity | rewrite IHl; reflexivity]. Qed.
+
+Lemma text_chunks_lemma : forall (O : eopts) (s : list N),
+  eo_str2raw O = false -> In s (texts_upto 8) -> chunks_utf8 (tree_of O (IStr s)) = true.
+Proof.
+  intros O s Hr Hin. cbn [tree_of]. rewrite Hr. cbn [negb]. unfold str_tree.
+  destruct (eo_indef O); [| reflexivity].
+  cbn [chunks_utf8]. rewrite forallb_map. cbn [snd].
+  pose proof text_chunks_sweep as S. rewrite forallb_forall in S. exact (S s Hin).
+Qed.
